@@ -596,3 +596,48 @@ PROPS["C02"] = {
                     "loop fuel is a parameter of the model (100000 iterations per call in the generated function; termination of the loop is not proved); the recursion depth parameter is proved "
                     "irrelevant from 21 on (the mirror runs with 200)"],
 }
+
+PROPS["C10"] = {
+    "title": "Regular offsets follow the true parallel curve",
+    "gen_modules": ["Consts", "Basis", "Section", "Lines", "FatLine", "Walk", "Fit", "PointInPath", "Offset"],
+    "corr_n": (4000, 100000),
+    "search_n": (600, 20000),
+    "technique": "Lean 4 theorems over definitions translated from the Rust source on every run (offset_lms_sampling, offset, offset_scaling, the whole body of subdivide_offset, "
+                 "offset_by_scaling/moving, tangent_at_pos/normal_at_pos, to_unit_vector, characterize/features_for_cubic_bezier) + a fuel knot for the recursion "
+                 "+ bit-exact Float mirror of every translated piece against the public API + search on the real code for the numerical part",
+    "level_text": "Partial. PROVED for every curve, every feature class and EVERY feature parameter, both signs of d, over any ordered field (sqrt abstract: non-negative square root): "
+                  "sections_tile / kept_sections_tile - the (t1,t2) sections that offset_lms_sampling and offset_scaling derive from features_for_curve (incl. the 0.0001/0.9999 snapping and the t1 != t2 filter) "
+                  "tile [0,1]: first starts at 0, consecutive ones share their boundary, last ends at 1, 1..4 sections, each with t1 < t2; "
+                  "sample_ts_eq / sample_ts_spec - the sample parameters are t1 + (t2-t1)/n*x per section plus a final 1.0: strictly increasing, first exactly 0, last exactly 1, n per section + 1; None iff n < 2; "
+                  "offset_lms_sampling_eq / offset_lms_chain / offset_eq / offset_constant_chain(_fitCubic) - offset_lms_sampling is exactly the fitter applied to the samples C(t)+n(t)*d(t)+t(t)*o(t); with any fitter meeting C08's "
+                  "contract (C08.FitsChain; C08's recursion skeleton of fit_curve_cubic is one) offset(curve,d,d) is a non-empty connected chain that starts EXACTLY at w1 + d*rot90(unit(C'(eps))) and ends EXACTLY at "
+                  "w4 + d*rot90(unit(C'(1-eps))): the end points of the curve are exact, the normal is taken at the nudged parameter f64::EPSILON / 1-f64::EPSILON (tangent_nudge_zero/_one/_cross and start_deviation_sq "
+                  "give the exact difference of the tangent, the sine of the nudge angle and the squared distance from the ideal point); "
+                  "normal_at_pos_eq / normal_perp_tangent / normal_same_length / to_unit_vector_zero / to_unit_vector_spec / unit_normal_spec / hodograph_is_derivative / tangent_at_zero_of_coincident - the 2-D normal is the tangent "
+                  "rotated by 90 degrees, the tangent is the derivative of point_at_pos, unit vectors have length 1 for non-zero input and the zero vector goes to the origin, the fallback for w1 = w2; "
+                  "offset_scaling_eq / body_pieces / body_congr / subdivideOffset_fuel / subdivideOffset_pieces / offset_scaling_pieces / offset_scaling_chain - offset_scaling calls subdivide_offset once per kept section; the recursion stops "
+                  "at MAX_DEPTH = 5 (the model's fuel is never exhausted); the result is a chain of leaf curves over sections that tile [0,1], it starts exactly at w1 + n*initial, ends exactly at w4 + n'*final, and at every joint the "
+                  "left curve ends at C(m) + n_left*o(m) and the right one starts at C(m) + n_right*o(m) with the same curve point and the same offset o(m) = initial + (final-initial)*m but the unit normals of two different leaf sections "
+                  "(unitNormalAt_eq: the curve's own unit normals at m - t_m*eps and m + t_m'*eps) - so the chain of offset_scaling is connected only up to that difference (observed: 0 or <= 1e-12 in 99% of the chains, <= 1e-9 in the rest), not exactly, even in exact arithmetic; "
+                  "leaf_ends / offset_by_moving_tangents / offset_by_scaling_homothety / offset_by_scaling_start_tangent - both leaf constructors start/end exactly on the offset points; moving keeps the end tangents exactly; scaling is "
+                  "an exact similarity about the focus (all tangents parallel) iff both ends ask for the same scale, otherwise the end tangent deviates by (s1-s0)/3 * (cp1-start) x (start-F); "
+                  "zero_length_section_pieces - for a zero-length section subdivide_offset returns curves that start and end ON THE SOURCE CURVE (no normal exists): the defect behind the known finding duplicate_extremity. "
+                  "Every translated piece is mirrored at Float and compared BIT FOR BIT with tangent_at_pos, normal_at_pos, to_unit_vector, characterize_curve, features_for_curve, the sample parameters of offset_lms_sampling "
+                  "(observed through the offset closure), the first/last point of offset / offset_lms_sampling chains and every control point of every curve offset_scaling returns. "
+                  "NOT proved (numerical, search only): the 1.5-unit two-sided distance between chain and parallel curve (least-squares fit / scaling heuristics), and the size of the joint gaps of offset_scaling.",
+    "level_note": "find_self_intersection_point (loop position) is an input of the model taken from the implementation, not translated. fit_curve_cubic is represented by C08's contract / recursion skeleton. "
+                  "The sample points of offset_lms_sampling other than the first and last, and the intermediate sections of subdivide_offset, are not observable through the public API (their effect is: the returned control points are compared). "
+                  "The search found two defect classes of offset_scaling inside the property's preconditions (known_findings.json): zero-length sub-sections from duplicate extremities, and single scaled arches more than 1.5 units off for curves "
+                  "that turn by more than 90 degrees. " + COMMON_NOTE,
+    "rule": "corr: curves of every search class, every degenerate class of cshapes (points, coincident control points, cusps, loops, lines) and small integer / dyadic grids (exact ties of the classification); operations normal "
+            "(t = 0, 1, eps, 1-eps, -0, interior, outside), features (with characterize_curve), lms (subdivisions 0,1,2,3,5,8,32,33; constant, integer, variable, zero, sign-changing offsets; optional tangent offset), offset, scaling; "
+            "comparison is bit equality of every number (NaN = NaN). search: curves in a 100-unit box (arch, S-curve, two inflections, near-line, line, gentle/any random, duplicate_extremity = 5-unit grid curves whose "
+            "find_extremities list repeats a parameter), 1 <= |d| <= 8 with |d|*kappa_max <= 1/2 and speed >= 1 on a 400-grid (others excluded and counted), the three functions: finite non-empty chain, ends within 1e-6 of "
+            "C(0)+d*n(0) / C(1)+d*n(1), joints within 1e-6, both directed distances to a 4000-sample parallel curve <= 1.5 (refined when near the limit). Non-trivial: every evaluated case (a regular curve with a non-zero offset); distinct by input.",
+    "trusted_base": ["Model/Offset.lean: the fuel knot of subdivide_offset (body generated; fuel shown sufficient by subdivideOffset_fuel)",
+                     "find_self_intersection_point is a parameter of features_for_cubic_bezier (its value comes from the implementation in the correspondence run; the theorems hold for any value)",
+                     "search oracle: 4000-sample parallel curve built from the library's own normal_at_pos, itself checked against an independent derivative at 5 parameters"],
+    "assumptions": ["sqrt is exact (SqrtSpec) where lengths are involved; f64::EPSILON is an abstract constant with 0 < eps, eps != 1",
+                    "the fitter meets C08's chain contract (proved for C08's skeleton under C08's hypotheses, max_error = 0.1 > 0)",
+                    "NaN / infinite control points and offsets are outside the model's theorems (the Float mirror still reproduces them)"],
+}
